@@ -795,6 +795,24 @@ func (g *generator) enterNextFinallyFrame() (canContinue bool) {
 	return
 }
 
+// propagateFromFinally is called when an exception was thrown from a 'finally' block which was running because
+// of generator.return() (handleThrow() stops at the frame of such a block, see enterNextFinallyFrame()).
+// The exception replaces the return completion and propagates to the enclosing try statements of the generator.
+// Returns nil if one of those has caught it.
+func (g *generator) propagateFromFinally(ex *Exception) *Exception {
+	vm := g.vm
+	for ex != nil && g.returning != nil && len(vm.tryStack) > 0 {
+		tf := &vm.tryStack[len(vm.tryStack)-1]
+		if tf.catchPos != tryPanicMarker || tf.finallyRet != tryGeneratorMarker {
+			break
+		}
+		vm.popTryFrame()
+		g.returning = nil
+		ex = vm.handleThrow(ex)
+	}
+	return ex
+}
+
 func (g *generator) step() (res Value, resultType resultType, ex *Exception) {
 	vm := g.vm
 	if g.returning == nil {
@@ -812,10 +830,9 @@ func (g *generator) step() (res Value, resultType resultType, ex *Exception) {
 		for {
 			ex = vm.runTryInner()
 			if ex != nil {
-				if vm.prg != nil || vm.pc != -2 {
-					// The exception was thrown in the outermost finally block, it never got to leaveFinally
-					// which does popTryFrame()
-					vm.popTryFrame()
+				if ex = g.propagateFromFinally(ex); ex == nil {
+					// caught by an enclosing try statement, the generator continues normally
+					return g.step()
 				}
 				return
 			}
@@ -881,7 +898,7 @@ func (g *generator) next(v Value) (Value, resultType, *Exception) {
 
 func (g *generator) nextThrow(v interface{}) (Value, resultType, *Exception) {
 	g.enterNext()
-	ex := g.vm.handleThrow(v)
+	ex := g.propagateFromFinally(g.vm.handleThrow(v))
 	if ex != nil {
 		g.vm.popTryFrame()
 		g.vm.popCtx()
